@@ -2,7 +2,10 @@ module verif/harness
 
 go 1.23
 
-require github.com/uber-go/tally/v4 v4.0.0
+require (
+	github.com/cactus/go-statsd-client/v5 v5.0.0
+	github.com/uber-go/tally/v4 v4.0.0
+)
 
 require (
 	github.com/beorn7/perks v1.0.1 // indirect
